@@ -168,4 +168,20 @@ def provisionLegacy (fl : LegacyFlags) (l : Legacy) : Except Err Effective :=
         publishOrigins := l.publishOrigins.map (·.text), corsOrigins := l.corsOrigins.map (·.text),
         cookieName := defaultCookie, compat7 := false }
 
+/-! ### where a role's verification key comes from (caddy/mercure.go populateJWTConfig + Provision) -/
+
+/-- A role verifies either with the keys of the JWK Set at its own `…_jwks_url` (then its `…_jwt` directive is not
+    looked at), or with the key of its `…_jwt` directive, or — subscribers only, when anonymous — with nothing. -/
+inductive KeySource where
+  | jwks (url : Str)
+  | key (k : KeyClass)
+  | none
+  deriving Repr
+
+/-- The source for one role: a function of that role's directives only. -/
+def roleKeySource (jwksURL : Option Str) (k : KeyClass) : KeySource :=
+  match jwksURL with
+  | some u => if u == [] then (if k == .absent then .none else .key k) else .jwks u
+  | Option.none => if k == .absent then .none else .key k
+
 end Mercure.Config
